@@ -624,17 +624,20 @@ def wire_rule(ctx, r):
     eb = ExprBuilder(f)
     for callee, fld, extra in ((WB + "::add_ignore", "no_ignore_files", None),
                                (WB + "::add_custom_ignore_filename", "no_ignore_dot", ".rgignore")):
-        cs = f.calls_to(callee)
+        # (the call may sit in a closure handed to an iterator over the files: the site is then where the closure is consumed)
+        from ..flow import call_sites as _call_sites
+        sites = _call_sites(facts, f, callee)
+        cs = [c_ for _, _, c_ in sites]
         key = callee.split("::")[-1]
         if len(cs) != 1:
             r.bad(key, "anchor-missing: %s called %d times" % (callee, len(cs)), fn=f)
             continue
         sw = cond_switches(f, lambda e: is_field(strip(e), HI, fld), eb)
-        if not sw or guarded(f, [cs[0].bb], sw, False):
+        if not sw or guarded(f, [sites[0][0]], sw, False):
             r.bad(key, "%s is not guarded by !%s" % (key, fld), fn=f, loc=cs[0].loc, construct=fld)
             continue
         if extra:
-            e = eb.operand(cs[0].args[1])
+            e = ExprBuilder(sites[0][1]).operand(cs[0].args[1])
             if not any(x.k == "const" and x[2] and extra in str(x[2]) for x in walk(e)):
                 r.bad(key, "custom ignore file name is `%s`, expected %s" % (show(e), extra), fn=f, loc=cs[0].loc)
                 continue
